@@ -919,10 +919,10 @@ def c20(ctx):
                 J("rel", "destroy", 0, 400, 2) + J("rel", "cmp", 0, 360, 2) +
                 J("asan", "lock", 5000, 16, 2) + J("asan", "backup", 5000, 8, 2) + J("asan", "destroy", 5000, 40, 1))
     else:
-        jobs = (J("rel", "lock", 0, 12000, 16) + J("rel", "backup", 0, 8000, 32) + J("rel", "conc", 0, 5000, 32) +
-                J("rel", "destroy", 0, 20000, 8) + J("rel", "cmp", 0, 7200, 8) +
-                J("asan", "lock", 50000, 3000, 16) + J("asan", "backup", 50000, 1000, 16) + J("asan", "conc", 50000, 600, 16) +
-                J("asan", "destroy", 50000, 5000, 4) + J("asan", "cmp", 50000, 1800, 4))
+        jobs = (J("rel", "lock", 0, 6400, 16) + J("rel", "backup", 0, 3200, 32) + J("rel", "conc", 0, 2560, 32) +
+                J("rel", "destroy", 0, 8000, 8) + J("rel", "cmp", 0, 3600, 8) +
+                J("asan", "lock", 50000, 1600, 16) + J("asan", "backup", 50000, 480, 16) + J("asan", "conc", 50000, 320, 16) +
+                J("asan", "destroy", 50000, 2000, 4) + J("asan", "cmp", 50000, 720, 4))
     agg = Agg().add(runner.run_jobs(jobs))
     n = agg.n
     pick = lambda prefix: {k[len(prefix):]: v for k, v in agg.counts.items() if k.startswith(prefix)}
